@@ -86,8 +86,13 @@ def run_case(ci, ir, script=None, result="R", extra_kwargs=None, evaluator=None)
     facts = {"script": script, "ops": sorted(ops_of(ir))}
     opsig = "+".join(sorted(ops_of(ir))[:4])
     try:
+        refvtl.SEEN["err"] = 0
         ref = (evaluator or refvtl.eval_ds)(ir, gen.ref_env(ci))
         ref_kind = "ok"
+        if any(v is refvtl.ERR for r in ref[1] for v in r.values()):
+            ref, ref_kind = None, "vtl_error"
+        elif refvtl.SEEN["err"]:
+            ref_kind = "ok_or_error"   # an erroring datapoint was dropped before reaching the result
     except refvtl.VTLError as e:
         ref, ref_kind = None, "vtl_error"
     except refvtl.Unsupported as e:
@@ -112,6 +117,8 @@ def run_case(ci, ir, script=None, result="R", extra_kwargs=None, evaluator=None)
         if eng_kind == "vtl":
             return (None, None, facts)
         return ("error_expected:%s" % opsig, "reference: VTL runtime error (division by zero) but engine returned a value", facts)
+    if eng_kind == "vtl" and ref_kind == "ok_or_error":
+        return (None, None, facts)
     if eng_kind == "vtl":
         code = err.args[1] if len(err.args) > 1 else type(err).__name__
         return ("engine_rejects:%s:%s" % (code, opsig), "engine raised %s %s: %s" % (type(err).__name__, code, str(err)[:200]), facts)
